@@ -588,6 +588,8 @@ package termincommittee
 //@   requires [O8.4.proof-comes-with-its-block] vcm.content.Sender().MemberId() == caller.myMemberId || (vcm.content.SignedHeader().PreparedProof() != nil && len(vcm.content.SignedHeader().PreparedProof().Raw()) > 0 ==>
 //@     | vcm.block != nil && vcm.block.Height() == vcm.content.SignedHeader().BlockHeight() && Commits(caller.blockUtils, vcm.content.SignedHeader().BlockHeight(), vcm.block, vcm.content.SignedHeader().PreparedProof().PreprepareBlockRef().BlockHash()))
 //@   requires [O8.4.block-comes-with-its-proof] vcm.content.Sender().MemberId() == caller.myMemberId || (vcm.block != nil ==> vcm.content.SignedHeader().PreparedProof() != nil && len(vcm.content.SignedHeader().PreparedProof().Raw()) > 0)
+// a counted vote is nested in this node's NEW_VIEW by re-encoding its fields: only a canonical header keeps its signature valid there (C11, defect F14)
+//@   requires [O11.3.a-counted-vote-is-canonical] CanonVC(vcm)
 //@   modifies ghost:vcver, ghost:countedVC
 //@   ensures vcver == old(vcver) + 1
 //@   ensures [counted] countedVC[vcm]
